@@ -1,7 +1,7 @@
 (* C11 - bounding boxes and extrema are conservative and tight; monotone splits hold.
    Statements per coordinate (x and y are treated identically by the code). *)
 From Coq Require Import QArith Qminmax.
-From LV Require Import Base.Prelude Model.Bezier Proofs.C11_Extrema.
+From LV Require Import Base.Prelude Model.Bezier Model.LineInter Proofs.C11_Extrema Gen.Functions Proofs.Gen_Geom.
 Open Scope Q_scope.
 
 (* The square-root oracle assumed for the cubic root finder: only at the one discriminant the code
@@ -120,6 +120,12 @@ Proof.
   split; [intros _; split; [discriminate | vm_compute; reflexivity] | vm_compute; repeat constructor].
 Qed.
 
+
+(* the quadratic's local extremum as regenerated from quadratic_bezier.rs on every run (tools/rs2coq.py) *)
+Theorem C11_quad_local_extremum_is_source : forall c,
+  src_quad_local_x_extremum_t c = q_local_x_extremum_t c /\ src_quad_local_y_extremum_t c = q_local_y_extremum_t c.
+Proof. intro c. split; [exact (src_quad_local_x_extremum_t_is_model c)|exact (src_quad_local_y_extremum_t_is_model c)]. Qed.
+
 Print Assumptions C11_quad_extremum_sound.
 Print Assumptions C11_quad_extremum_complete.
 Print Assumptions C11_quad_dcoord_is_derivative.
@@ -136,3 +142,4 @@ Print Assumptions C11_cubic_extrema_complete.
 Print Assumptions C11_cubic_range_tight.
 Print Assumptions C11_cubic_range_contains.
 Print Assumptions C11_cubic_fast_contains.
+Print Assumptions C11_quad_local_extremum_is_source.
